@@ -1,7 +1,7 @@
 (* driver for the C09 model (Model/ServerLife.v): one case per line
    run <tok>*        tokens: st | cn | op c i <beh> <dl> <prog> | m c i | cr c i | tk | rs c i | dl c i
                              | ga c | lo c | sc | wc | ru c i | rw | se
-                     beh = h<n> | sw ; dl = 0|1 ; prog = word over R S W T, or - for the empty program
+                     beh = h<n> | sw ; dl = 0|1 ; prog = word over R S W T X, or - for the empty program
         -> one snapshot per `se`, joined by " | ":
            <task>,<task>,...;W<stage>;X<crashed conns>;E<serr>;H<connections whose Handler is in Server._handlers>
            task = c.i:<phase>:<ncancel>:<nhit>:<cleanup_done>:<registered>:<in_tasks>:<in_cancelled>:<late>:<werr>
@@ -11,7 +11,9 @@
 *)
 let ni = nat_of_int
 let kind_of_char = function
-  | 'R' -> AR | 'S' -> AS | 'W' -> AW | 'T' -> AT | _ -> failwith "await kind"
+  | 'R' -> AR | 'S' -> AS | 'W' -> AW | 'T' -> AT
+  | 'X' -> AT   (* trailers with a non-OK status (the server also resets the stream): never blocks either *)
+  | _ -> failwith "await kind"
 let prog_of_word w = if w = "-" then [] else List.init (String.length w) (fun i -> kind_of_char w.[i])
 let beh_of_word w =
   if w = "sw" then Swallow
@@ -77,6 +79,16 @@ let handle = function
     let closes = String.concat "," (List.map (fun g -> string_of_int (int_of_nat g.g_closes)) st.g_servers) in
     let exits = String.concat "," (List.rev_map (fun n -> string_of_int (int_of_nat n)) st.g_exits) in
     (if closes = "" then "-" else closes) ^ " " ^ b2s st.g_flag ^ " " ^ (if exits = "" then "-" else exits)
+  | "wset" :: toks ->
+    (* one Wrapper, several tasks: e<t> = task t enters `with wrapper`, x<t> = leaves, k = wrapper.cancel(err)
+       -> <tasks cancelled by cancel()> <tasks whose __enter__ was refused> <tasks still registered> *)
+    let op w = let n = ni (int_of_string (String.sub w 1 (String.length w - 1))) in
+      if w.[0] = 'e' then WEnter n else WExit n in
+    let ops = List.map (fun w -> if w = "k" then WCancel else op w) toks in
+    let r = wrun ops in
+    let show l = if l = [] then "-" else
+        String.concat "," (List.map string_of_int (List.sort compare (List.map int_of_nat l))) in
+    show r.wcancelled ^ " " ^ show r.wrefused ^ " " ^ show r.wtasks
   | _ -> failwith "unknown command"
 
 let () = main_loop handle
